@@ -691,10 +691,15 @@ impl World {
 
     /// Like `spawn_acceptor`, but the tag and plan of an accepted stream are looked up by (host, port).
     pub fn spawn_acceptor_by(&mut self, side: usize, n: usize, table: BTreeMap<(Vec<u8>, u16), (Tag, EndPlan)>) {
+        self.spawn_acceptor_by_named(side, "", n, table);
+    }
+
+    /// Several accept tasks on one side need distinct names (`accept<suffix>.<side>`).
+    pub fn spawn_acceptor_by_named(&mut self, side: usize, suffix: &str, n: usize, table: BTreeMap<(Vec<u8>, u16), (Tag, EndPlan)>) {
         let mux = self.mux(side);
         let obs = self.obs.clone();
         let sp = self.sim.spawner.clone();
-        let name = format!("accept.{}", if side == 0 { "a" } else { "b" });
+        let name = format!("accept{suffix}.{}", if side == 0 { "a" } else { "b" });
         obs.borrow_mut().begin(&name);
         let n2 = name.clone();
         self.sim.spawn(name, group_of(side), async move {
@@ -842,9 +847,14 @@ impl World {
     /// order) of the i-th request to answer, `answers[j]` what to do with arrival j.
     /// With `expect == 0` every request is answered immediately with `answers[0]` forever.
     pub fn spawn_bind_responder(&mut self, side: usize, expect: usize, order: Vec<usize>, answers: Vec<BindAnswer>) {
+        self.spawn_bind_responder_named(side, "", expect, order, answers);
+    }
+
+    /// Several responder tasks on one side need distinct names (`bindresp<suffix>.<side>`).
+    pub fn spawn_bind_responder_named(&mut self, side: usize, suffix: &str, expect: usize, order: Vec<usize>, answers: Vec<BindAnswer>) {
         let mux = self.mux(side);
         let obs = self.obs.clone();
-        let name = format!("bindresp.{}", if side == 0 { "a" } else { "b" });
+        let name = format!("bindresp{suffix}.{}", if side == 0 { "a" } else { "b" });
         obs.borrow_mut().begin(&name);
         let n2 = name.clone();
         self.sim.spawn(name, group_of(side), async move {
